@@ -42,7 +42,7 @@ import (
 
 func init() {
 	c25ChildMode()
-	register(&Prop{ID: "C25", Module: "V.C25.Check", Gen: c25Gen, Quick: 4, Thorough: 16, Shard: 40})
+	register(&Prop{ID: "C25", Module: "V.C25.Check", Gen: c25Gen, Quick: 8, Thorough: 20, Shard: 40})
 }
 
 type c25Job struct {
@@ -54,7 +54,10 @@ type c25Job struct {
 }
 
 // c25Render: what `d2 in.d2 out.svg` does for one board, as a digest of the SVG bytes ("ERR:…" on error)
-func c25Render(j c25Job) (res string) {
+func c25Render(j c25Job) string { return c25RenderRec(j, nil) }
+
+// c25RenderRec additionally reports every graph handed to the core layout engine
+func c25RenderRec(j c25Job, rec func(engine string, g *d2graph.Graph)) (res string) {
 	defer func() {
 		if e := recover(); e != nil {
 			res = fmt.Sprintf("ERR:panic: %v", e)
@@ -69,7 +72,16 @@ func c25Render(j c25Job) (res string) {
 	theme := j.Theme
 	ro := &d2svg.RenderOpts{ThemeID: &theme, Sketch: go2.Pointer(j.Sketch)}
 	d, _, err := d2lib.Compile(ctx, j.Text, &d2lib.CompileOptions{Ruler: ruler, Layout: go2.Pointer(j.Engine),
-		LayoutResolver: func(engine string) (d2graph.LayoutGraph, error) { return c26Engine(engine), nil }}, ro)
+		LayoutResolver: func(engine string) (d2graph.LayoutGraph, error) {
+			real := c26Engine(engine)
+			if rec == nil {
+				return real, nil
+			}
+			return func(ctx context.Context, g *d2graph.Graph) error {
+				rec(engine, g)
+				return real(ctx, g)
+			}, nil
+		}}, ro)
 	if err != nil {
 		return "ERR:" + err.Error()
 	}
@@ -146,10 +158,41 @@ var c25Diagrams = []struct{ class, text string }{
 	{"tables-classes-styles", "t: {shape: sql_table; id: int {constraint: primary_key}; name: varchar; org: int {constraint: foreign_key}}\nk: {shape: class; +name: string; -run(x int): error}\nt -> k\np -> t.org: col\nx: {style.3d: true; style.fill: \"linear-gradient(#f69d3c, #3f87a6)\"}\ny: {shape: cylinder; style.fill-pattern: dots; style.shadow: true}\nx -> y: pat {style.font-color: red}\nm: |md # Title\n**bold** and `code` and [link](https://example.com)\n|\nm -> x: {source-arrowhead: {shape: diamond; label: 1}; target-arrowhead: {shape: cf-many; label: n}}"},
 	{"sequence-near-grid", "title: Doc {near: top-center; shape: text; style.font-size: 30}\nseq: {shape: sequence_diagram; alice -> bob: hello; bob -> alice: hi back; alice.s -> bob.s: span; bob.\"note to self\"}\ngrid: {grid-rows: 2; a; b; c: {p -> q}; d}\nseq -> grid: then\ngrid.a -> grid.d\nlegend: {near: bottom-right; k1; k2; k1 -> k2}\ntip: {tooltip: some tip; link: https://example.com; icon: https://icons.terrastruct.com/essentials/004-picture.svg}\ngrid -> tip"},
 	{"code-blocks", "c: |go\npackage main\n\nimport \"fmt\"\n\n// comment\nfunc main() {\n\tx := 42 // answer\n\tfmt.Printf(\"%d <&> %s\\n\", x, \"str\")\n}\n|\np: |python\ndef f(a, b=2):\n    return [a*b for _ in range(3)]  # list\n|\nc -> p: calls"},
+	// minimised witnesses of the dagre container-spacing defects and of the variable-replacement defect
+	{"witness-rank-spacing-tie-end", "B: {\n  A: {\n    label: \"A0\\nA1\\nA2\\nA3\\nA4\\nA5\\nA6\"\n    label.near: outside-bottom-center\n    style.font-size: 18\n    c: {\n      label: \"c0\\nc1\\nc2\\nc3\\nc4\\nc5\\nc6\\nc7\\nc8\\nc9\\nc10\"\n      label.near: outside-bottom-center\n      style.font-size: 16\n      width: 100\n      height: 66\n    }\n  }\n}\n"},
+	{"witness-rank-spacing-tie-start", "B: {\n  A: {\n    label: \"A0\\nA1\\nA2\\nA3\\nA4\\nA5\\nA6\"\n    label.near: outside-top-center\n    style.font-size: 18\n    c: {\n      label: \"c0\\nc1\\nc2\\nc3\\nc4\\nc5\\nc6\\nc7\\nc8\\nc9\\nc10\"\n      label.near: outside-top-center\n      style.font-size: 16\n      width: 100\n      height: 66\n    }\n  }\n}\n"},
+	{"witness-shift-seen-range", "direction: right\nn4: {\n  n5: {\n    n10: {\n      n12: {\n      }\n    }\n  }\n  n13: {\n    n16: {\n      label.near: outside-top-center\n    }\n  }\n}\nn17: {\n}\nn4.n13.n16 -> n4.n5.n10: \"e\"\nn17 -> n4.n5.n10.n12: \"e\"\n"},
+	{"witness-md-variables", "vars: {\n  a: '${b}'\n  b: hello\n}\nx: |md\n  # title ${a} end\n|\n"},
 	{"self-loops-multi", "a -> a: self\na -> b\na -> b: again\nb -> c -> d -> a: cycle\nbox: {e -> e; e -> f; f -> g: lbl; g.shape: diamond}\nbox.g -> d\nd: {style.double-border: true}\nh: {shape: hexagon}\nh -> d\nc: {shape: circle; width: 120}\n(a -> b)[0].style.stroke: blue\nc -> box.e: {source-arrowhead: {shape: diamond; label: 1}; target-arrowhead: {shape: cf-many; label: n}}"},
 }
 
 const c25KFChroma = "C25-chroma-match-timeout"
+const c25KFTies = "C25-dagre-rank-spacing-ties"
+const c25KFSeen = "C25-dagre-shift-seen-range"
+const c25KFVars = "C25-md-variable-replace-order"
+
+// signatures of the dagre findings, evaluated on every graph handed to d2dagrelayout:
+//
+//	seen-range: the graph has at least two containers (growing one can shift into the other)
+//	ties:       a container is nested in a container (both are ancestors of the same rank)
+func c25DagreSig(g *d2graph.Graph) (twoContainers, nested bool) {
+	n := 0
+	for _, o := range g.Objects {
+		if len(o.ChildrenArray) > 0 {
+			n++
+			if o.Parent != nil && o.Parent != g.Root {
+				nested = true
+			}
+		}
+	}
+	return n >= 2, nested
+}
+
+// signature of the variable-replacement finding: a quoted or escaped substitution, i.e. a value that
+// keeps the literal text ${…}
+func c25HasLiteralSubstitution(text string) bool {
+	return strings.Contains(text, "'${") || strings.Contains(text, "\\${")
+}
 
 // signature of the known finding: the diagram has a code block (shape: code), i.e. text that d2svg
 // tokenises with chroma for syntax highlighting
@@ -180,6 +223,10 @@ func c25Jobs(r *Rng, tier string, n int) []c25Job {
 			class, text = "random", d.text
 		}
 		theme := []int64{0, 300, 0, 200, 1, 8, 105, 301}[i%8]
+		if strings.HasPrefix(class, "witness-") {
+			add(class, text, "dagre", false, 0)
+			continue
+		}
 		add(class, text, "dagre", false, theme)
 		if tier != "quick" || i%2 == 0 {
 			add(class, text, "dagre", true, 0)
@@ -256,9 +303,22 @@ func c25Gen(r *Rng, tier string, n int) []Case {
 	// 2. sequential repetitions in this process, interleaved with the other jobs
 	k := 3
 	seq := make([][]string, J)
+	sigSeen, sigTies := make([]bool, J), make([]bool, J)
 	for rep := 0; rep < k; rep++ {
 		for i := range jobs {
-			seq[i] = append(seq[i], c25Render(jobs[i]))
+			i := i
+			var rec func(string, *d2graph.Graph)
+			if rep == 0 {
+				rec = func(engine string, g *d2graph.Graph) {
+					if engine != "dagre" {
+						return
+					}
+					two, nested := c25DagreSig(g)
+					sigSeen[i] = sigSeen[i] || two
+					sigTies[i] = sigTies[i] || nested
+				}
+			}
+			seq[i] = append(seq[i], c25RenderRec(jobs[i], rec))
 		}
 	}
 
@@ -347,6 +407,15 @@ func c25Gen(r *Rng, tier string, n int) []Case {
 		}
 		if c25HasCode(j.Text) {
 			cs.KF = append(cs.KF, c25KFChroma)
+		}
+		if sigSeen[i] {
+			cs.KF = append(cs.KF, c25KFSeen)
+		}
+		if sigTies[i] {
+			cs.KF = append(cs.KF, c25KFTies)
+		}
+		if c25HasLiteralSubstitution(j.Text) {
+			cs.KF = append(cs.KF, c25KFVars)
 		}
 		if i == 0 {
 			cs.ImplFail = append(cs.ImplFail, fails...)
